@@ -17,6 +17,8 @@ ENGINES = {
     "C09": ("eng_stack", "proof"),
     "C14": ("eng_text", "proof"),
     "C18": ("eng_pratt", "proof"),
+    "C15": ("eng_world", "other"),
+    "C12": ("eng_charset", "proof"),
     "C01": ("eng_core", "proof"),
     "C02": ("eng_core", "other"),
     "C03": ("eng_core", "proof"),
